@@ -20,7 +20,8 @@ import (
 	"verif/internal/ev"
 )
 
-var envNames = []string{"VF_A", "VF_B", "VF_C", "vf_d", "VF_E1", "_VF_F"}
+// (the last three are names other programs use: the runner has no names of its own besides TASK_NAME)
+var envNames = []string{"VF_A", "VF_B", "VF_C", "vf_d", "VF_E1", "_VF_F", "ARGS", "LANG", "EDITOR"}
 
 var envValues = []string{"plain", "with space", "q\"uote", "single'quote", "new\nline", "$HOME", "${VF_A}", "k=v", "=lead", "ünï€", "", "tab\there", "back\\slash", "`cmd`", "$(echo x)", "a;b", "*", "#hash", "{{ .v0 }}x"}
 
@@ -86,7 +87,7 @@ func TestC18(t *testing.T) {
 					}
 				}
 				td := definition.TaskDef{Script: []string{
-					vh + " dumpenv VF_ vf_ _VF_ TASK_NAME=",
+					vh + " dumpenv VF_ vf_ _VF_ TASK_NAME= ARGS= LANG= EDITOR=",
 					vh + " args " + strings.Join(expand, " "),
 					vh + " args '{{ .v0 }}' '{{ .v1 }}' '{{ .num }}' '{{ .flag }}' '{{ .nested.k }}'",
 				}}
